@@ -142,7 +142,7 @@ def parse_out(out):
     """'ok W (a b c)' -> (W, [a, b, c]); errors -> None."""
     if not out.startswith('ok'):
         return None
-    items = sx.loads_line(out)
+    items = sx.loads_line(out.replace(' ' + tables.MUTATED, ''))
     if len(items) == 3:
         return F(items[1]), [F(x) for x in items[2]]
     return None, [F(x) for x in items[1]]
@@ -157,35 +157,51 @@ def judge_fixed(meta, out, tol=F(0)):
     width, cw = parse_out(out)
     s = F(0) if collapse else spacing
     n = len(cw)
-    slack = tol * max(1, abs(width), abs(table_w))
+    slack = tol * max([1, abs(width), abs(table_w)] + [abs(x) for x in cw])
     if n and abs(sum(cw) + s * (n + 1) - width) > slack:
         return f'fixed layout: columns {cw} + spacing do not add up to the table width {width}'
     if width < table_w - slack:
         return f'fixed layout shrank the table: {width} < {table_w}'
+    # fixed_nonneg: non-negative <col> declarations never give a negative column (finding
+    # fixed-negative-column, repaired by 5d962d2)
+    col_decl = [None if d[0] == 'auto' else (d[1] if d[0] == 'px' else table_w * d[1] / 100) for d in cols]
+    if all(d is None or d >= 0 for d in col_decl):
+        for i, w in enumerate(cw):
+            if w < -slack:
+                return f'fixed layout: column {i} has the negative width {w}'
     # declared widths are honoured up to one common, non-negative widening `b` of every column:
     #   a declared <col>:            cw[i] = declared_i + b
     #   a first-row cell of declared border-box width bw whose span still has a column without
-    #   width when its turn comes:   sum(cw[span]) + s (k-1) = bw + k b
-    known = [d[0] != 'auto' for d in cols] + [False] * (n - len(cols))
+    #   width when its turn comes, when bw covers the spacings and the widths already declared in
+    #   its span (feasible):         sum(cw[span]) + s (k-1) = bw + k b
+    #   when it does not (a column cannot be negative): those columns get nothing, cw[j] = b
+    decl = col_decl + [None] * (n - len(cols))          # declared / handed-out widths, None = not known yet
     bumps = []
-    for i, d in enumerate(cols):
-        if d[0] != 'auto' and i < n:
-            declared = d[1] if d[0] == 'px' else table_w * d[1] / 100
-            bumps.append((cw[i] - declared, f'column {i} declared {declared} got {cw[i]}'))
+    for i, d in enumerate(col_decl):
+        if d is not None and i < n:
+            bumps.append((cw[i] - d, f'column {i} declared {d} got {cw[i]}'))
     i = 0
     for colspan, width_decl, pl, pr, bl, br, sizing in cells:
         span = range(i, min(i + colspan, n))
-        if width_decl[0] != 'auto' and colspan >= 1 and not all(known[j] for j in span):
+        unknown = [j for j in span if decl[j] is None]
+        if width_decl[0] != 'auto' and colspan >= 1 and unknown:
             w = width_decl[1] if width_decl[0] == 'px' else table_w * width_decl[1] / 100
             delta = {'content': 0, 'padding': pl + pr, 'border': pl + pr + bl + br}[sizing]
             if delta > 0:
                 w = max(0, w - delta)
             bw = w + pl + pr + bl + br
-            got = sum(cw[j] for j in span) + s * (colspan - 1)
-            bumps.append(((got - bw) / colspan,
-                          f'first-row cell at column {i} spanning {colspan} declares {bw}, its columns give {got}'))
-            for j in span:
-                known[j] = True
+            share = bw - s * (colspan - 1) - sum(decl[j] for j in span if decl[j] is not None)
+            if share >= 0:
+                got = sum(cw[j] for j in span) + s * (colspan - 1)
+                bumps.append(((got - bw) / colspan,
+                              f'first-row cell at column {i} spanning {colspan} declares {bw}, its columns give {got}'))
+            else:
+                for j in unknown:
+                    bumps.append((cw[j], f'first-row cell at column {i} spanning {colspan} declares {bw}, less '
+                                         f'than its spacings and declared columns need: column {j} should get '
+                                         f'nothing, got {cw[j]}'))
+            for j in unknown:
+                decl[j] = max(share, 0) / len(unknown)
         i += colspan
     for b, text in bumps:
         if b < -slack:
@@ -251,6 +267,10 @@ def auto_wellformed(inp):
 def judge_auto(meta, out, tol=F(0)):
     """auto_sum / auto_ge_min / auto_bounds stated directly."""
     inp = meta['args']
+    if out.endswith(tables.MUTATED):
+        return ('auto_table_layout modified the preferred-width lists it was given (the per-document cache of '
+                'table_and_columns_preferred_widths): every later use of the table\'s min/max-content widths '
+                '(shrink-to-fit, the next fragment) reads the modified values')
     if not auto_wellformed(inp):
         return None      # the clauses are stated for min <= max, percentages >= 0, table min >= columns min
     if out.startswith('err:'):
@@ -327,7 +347,8 @@ def _doc_violation(html, info):
             if what:
                 return what
     for r in rec.auto:
-        what = judge_auto({'args': r['inp']}, tables.fixed_out(*r['out']), tol)
+        what = judge_auto({'args': r['inp']}, tables.fixed_out(*r['out']) +
+                          (' ' + tables.MUTATED if r.get('mutated') else ''), tol)
         if what:
             return what
     for r in rec.excess:
@@ -358,7 +379,7 @@ def _doc_violation(html, info):
             widths = r['out'][1]
             break
     for (_, _, t), frag_rows in zip(frags, all_rows):
-        what = tables.geometry_violation(t, widths)
+        what = tables.geometry_violation(t, widths) or tables.final_columns_violation(t, widths)
         if what:
             return what
         continued = bool(frag_rows) and prev_last == frag_rows[0]
@@ -366,6 +387,11 @@ def _doc_violation(html, info):
         what = tables.rows_violation(t, continued)
         if what:
             return what
+        if t.style['border_collapse'] == 'collapse':
+            what = tables.painted_violation(
+                t, header_declared=bool(info['n_head']) if info else '<thead' in html)
+            if what:
+                return what
     if info:
         pag = tables.pagination_case(document, info)
         if pag is not None:
@@ -376,12 +402,20 @@ def _doc_violation(html, info):
 class C10(PropCheck):
     id = 'C10'
     heights_acc = []
+    final_acc = []
+    skip_acc = []
+    draw_acc = []
+    split_acc = []
     extractors = (border_styles.generate,)
     modules = ('WpModel.Props.C10', 'WpModel.Props.C10Pages', 'WpModel.Props.C10Pref', 'WpModel.Props.C10Heights',
-               'WpModel.Witness.C10')
+               'WpModel.Props.C10Split', 'WpModel.Props.C10CellWidth', 'WpModel.Props.C10Draw',
+               'WpModel.Props.C10SplitBorders', 'WpModel.Witness.C10')
     trusted_base = (
         'modelled, not verified: fixed_table_layout, auto_table_layout (given the preferred-width tuple), '
-        'distribute_excess_width, the column/cell placement of table_layout',
+        'distribute_excess_width, the column/cell placement of table_layout, the cell skip-stack bookkeeping of '
+        'group_layout, table_cell_min_max_content_width (given the children\'s widths), draw_collapsed_borders '
+        '(observed through draw_line calls on a stub stream, not through the PDF content stream), the '
+        'collapsed-split bookkeeping of table_layout',
     )
     assumptions = (
         'the float products `assignable * (1 ± 1e-9)` of auto_table_layout order like the rationals '
@@ -389,9 +423,11 @@ class C10(PropCheck):
     )
 
     def correspondence(self, run):
+        self.regressions(run)
         self.widths_direct(run)
         self.witnesses(run)
         self.preferred_direct(run)
+        self.cellwidth_direct(run)
         self.borders_direct(run)
         self.documents(run)
 
@@ -402,12 +438,17 @@ class C10(PropCheck):
         rec = tables.Recorder()
         geom, rows, pages, clauses = [], [], [], []
         C10.heights_acc = []
-        n_docs = run.n(300, 3200)
+        C10.final_acc = []
+        C10.skip_acc = []
+        C10.draw_acc = []
+        C10.split_acc = []
+        n_docs = run.n(360, 3600)
         render_errors = []
         predict, predict_notes = [], {}
         for i in range(n_docs):
-            flavour = ('wide', 'paged', 'atomic')[i % 3]
-            html, info = tables.g_atomic_doc(rng) if flavour == 'atomic' else tables.g_doc(rng, flavour)
+            flavour = ('wide', 'paged', 'atomic', 'wide', 'paged', 'split')[i % 6]
+            html, info = (tables.g_atomic_doc(rng) if flavour == 'atomic' else
+                          tables.g_split_doc(rng) if flavour == 'split' else tables.g_doc(rng, flavour))
             rec.current = (html, info)
             rec.layouts.clear()
             doc_meta = {'html': html, 'info': info}
@@ -427,6 +468,10 @@ class C10(PropCheck):
                 cases, note = [], 'not-finite'
             predict_notes[note or 'used'] = predict_notes.get(note or 'used', 0) + 1
             predict.extend((line, out, doc_meta, tags) for line, out, tags in cases)
+            C10.skip_acc.extend((line, out, doc_meta, tags) for line, out, tags in
+                                tables.cell_skip_cases(rec.layouts))
+            C10.split_acc.extend((line, out, doc_meta, tags) for line, out, tags in
+                                 tables.split_border_cases(rec.layouts))
         rec.layouts.clear()
         run.extra['pagination_model_documents'] = predict_notes
         self.feed_documents(run, rec, geom, rows, pages, clauses, render_errors, n_docs, predict)
@@ -443,6 +488,13 @@ class C10(PropCheck):
         for k, (_, _, t) in enumerate(frags):
             args, out = tables.geom_case(t)
             geom.append((sx.line('geom', *args), out, doc_meta, kind))
+            if info['collapse']:
+                dargs, dout, dtags = tables.draw_borders_case(t)
+                C10.draw_acc.append((sx.line('drawborders', *dargs), dout, doc_meta, kind + dtags))
+            if widths is not None:
+                C10.final_acc.append((sx.line('finalcols', not info['rtl'], list(widths), k),
+                                      tables.show_rats(t.column_widths), doc_meta,
+                                      kind + ['first-fragment' if k == 0 else 'later-fragment']))
             if len(frags) == 1:
                 for g in t.children:
                     case = tables.row_heights_case(t, g)
@@ -461,6 +513,8 @@ class C10(PropCheck):
             prev_last = frag_rows[-1] if frag_rows else prev_last
             later = [r for rs in all_rows[k + 1:] for r in rs]
             split_last = bool(frag_rows) and bool(later) and later[0] == frag_rows[-1]
+            C10.split_acc.extend((line, out, doc_meta, tags) for line, out, tags in
+                                 tables.split_cell_y_cases(t, continued, bool(info['n_head'])))
             args, out, no_end = tables.rows_case(t, k == 0, continued, split_last)
             rows.append((sx.line('rows', *args, not no_end), out, doc_meta,
                          kind + ['continued-row'] if continued else kind))
@@ -508,7 +562,8 @@ class C10(PropCheck):
         feed(run.section(
             'doc-auto', 'calls of auto_table_layout recorded while rendering (the preferred-width tuple is '
             'the real one computed by table_and_columns_preferred_widths); tag = branch'),
-            [(tables.auto_line(sx, r['inp']), tables.fixed_out(*r['out']), docmeta(r), [b])
+            [(tables.auto_line(sx, r['inp']), tables.fixed_out(*r['out']) +
+              (' ' + tables.MUTATED if r.get('mutated') else ''), docmeta(r), [b])
              for r, b in zip(auto_cases, branches)])
         feed(run.section(
             'doc-excess', 'calls of distribute_excess_width recorded while rendering (from auto_table_layout '
@@ -523,6 +578,13 @@ class C10(PropCheck):
             [(sx.line('preferred', *r['args']), r['out'], docmeta(r), []) for r in rec.preferred
              if not tables.preferred_unstable(r['out'])])
         feed(run.section(
+            'doc-cell-widths', 'every cell of every table of the rendered documents, when the table\'s preferred '
+            'widths are first computed: real table_cell_min_max_content_width (outer) against the model given '
+            'the min/max-content widths of the cell\'s children from the real helpers (text, floats, absolutely '
+            'positioned boxes, fixed-width blocks); non-trivial = a child out of normal flow'),
+            [(r['line'], r['out'], docmeta(r), r['kinds']) for r in rec.cell_widths],
+            nontrivial=lambda line: 'floated' in line or 'absolute' in line)
+        feed(run.section(
             'doc-wrapper', 'calls of table_wrapper_width recorded while rendering: which algorithm ran (fixed iff '
             'table-layout:fixed and width not auto), the used table width it was given (percentage and '
             'box-sizing resolved), wrapper.width = border box of the table'),
@@ -535,9 +597,23 @@ class C10(PropCheck):
             'generated documents (border-collapse: collapse)'),
             [(r['line'], r['out'], docmeta(r), []) for r in rec.collapse])
         feed(run.section(
+            'doc-painted-borders', 'every fragment of every border-collapse table: the lines the real '
+            'draw_collapsed_borders paints (draw_line calls recorded on a stub stream: style, width, colour, '
+            'side, end points, in painting order) against the model, given the border grids of the whole table '
+            '(collapse_table_borders, compared in doc-borders), the fragment\'s row / column geometry, its '
+            'repeated header / footer rows, skipped_rows and the skip_cell_border flags; non-trivial = a '
+            'continuation fragment or a repeated header / footer'), list(C10.draw_acc),
+            nontrivial=lambda line: ' 0 0 0 false false ' not in line)
+        feed(run.section(
             'doc-geometry', 'every table fragment of every page: column_positions, column_widths (rtl: '
             'reversed), x/width of groups and rows, x / border-box width / clipped colspan of every cell, '
             'against the model run on the fragment\'s own column widths'), geom)
+        feed(run.section(
+            'doc-final-columns', 'every table fragment of every page: the column widths the fragment was laid '
+            'out with (table.column_widths, visual order) against finalColumns of the widths computed by the '
+            'width algorithm for this table (recorded call of fixed/auto_table_layout): the reversal for rtl is '
+            'a copy, no layout pass may see the widths of another pass (regression of '
+            'rtl-columns-reversed-on-relayout)'), list(C10.final_acc))
         feed(run.section(
             'doc-clauses', 'first fragment of every table: table.width against the width that goes with the '
             'laid-out columns (fixed: sum + (n+1) spacings; auto: sum + one spacing per column with an '
@@ -560,6 +636,22 @@ class C10(PropCheck):
             'non-trivial = more than one fragment'), pages,
             nontrivial=lambda line: line.count('(true') + line.count('(false') > 1)
         feed(run.section(
+            'doc-split-borders', 'every recorded table_layout call of a border-collapse table that places a '
+            'fragment: skipped_rows (rows of the whole table before the row where the fragment resumes), '
+            'split_cells, the border_top_width the call leaves on the table (half the widest border of the '
+            'line above the resumed row, unless a header is repeated or cells are split) and the '
+            'skip_cell_border_top / bottom flags; and for the first body row of every fragment where its cells '
+            'start (below the repeated header\'s bottom border when the row continues a cut row); against '
+            'Model/TableSplitBorders; non-trivial = a continuation'),
+            list(C10.split_acc), nontrivial=lambda line: not line.startswith('splitborders none') and ' false (' not in line)
+        feed(run.section(
+            'doc-cell-skips', 'every block_container_layout call made for a table cell while rendering, and every '
+            'table_layout call that ends inside a row: the skip stack given to the cell (the one stored under its '
+            'index in the row when the row is resumed, {len(children): None} for a finished cell, None elsewhere) '
+            'and the resume dict of a broken row (cell index -> where that cell stopped) against '
+            'Model/TableCellSplit (split_roundtrip); non-trivial = a cell of a resumed row'),
+            list(C10.skip_acc), nontrivial=lambda line: not line.startswith('cellskip none'))
+        feed(run.section(
             'doc-pages-predict', 'every call of table_layout recorded while rendering tables whose rows are '
             'never split (skip stack, bottom space, page-is-empty flag, page bottom, row heights and break '
             'properties in; header/footer kept, row groups and rows placed with y/height, resume_at, '
@@ -568,16 +660,47 @@ class C10(PropCheck):
             list(predict))
         run.extra['float_rounding'] = rounded
 
+    # -- corpus first: the documents of the repaired findings, rendered, against the model
+    def regressions(self, run):
+        sec = run.section(
+            'regression-replay', 'the documents of the repaired findings rendered on the real code, the recorded '
+            'call compared with the model: fixed-negative-column (5d962d2: fixed_table_layout called by the '
+            'render, no negative column), rtl-columns-reversed-on-relayout (d13f52d: every fragment of the rtl '
+            'table whose bottom border overflows the page shows finalColumns of the computed widths)')
+        docs.quiet()
+        for name, html, replay_fn in (('fixed-negative-column', NEGATIVE_COLUMN_HTML, negative_column_replay),
+                                      ('rtl-columns-reversed-on-relayout', RTL_REVERSED_HTML, rtl_reversed_replay)):
+            rec = tables.Recorder()
+            rec.current = (html, None)
+            with rec.installed():
+                document = docs.render(html)
+            meta = {'html': html, 'info': None}
+            back = replay_fn()
+            for r in rec.fixed:
+                if 'out' in r:
+                    sec.add(tables.fixed_line(sx, r['table_w'], r['collapse'], r['spacing'], r['cols'], r['cells']),
+                            tables.fixed_out(*r['out']) if not back else f'regressed:{name}', meta=meta,
+                            tags=[name])
+            widths = layout_widths(rec, html)
+            seen = set()
+            for _, _, t in tables.table_fragments(document):
+                line = sx.line('finalcols', t.style['direction'] == 'ltr', list(widths))
+                out = tables.show_rats(t.column_widths) if not back else f'regressed:{name}'
+                if (line, out) not in seen:
+                    seen.add((line, out))
+                    sec.add(line, out, meta=meta, tags=[name])
+
     # -- the inputs of Witness/C10.lean replayed on the real functions
     def witnesses(self, run):
         sec = run.section(
             'witness-replay', 'the concrete inputs of the Witness theorems (hypotheses of the _partial theorems '
-            'are necessary) run on the real functions and compared with the model: fixed_negative_column, '
-            'auto_band_below_min (CleanBand is necessary for auto_ge_min), auto_spacing_short')
+            'are necessary) and of the regression theorems run on the real functions and compared with the '
+            'model: fixed_negative_column_repaired (no negative column since 5d962d2), auto_band_below_min '
+            '(CleanBand is necessary for auto_ge_min), auto_spacing_short')
         args = (F(60), False, F(0), [('px', F(100)), ('auto',)], [(2, ('px', F(50)), F(0), F(0), F(0), F(0), 'content')])
         out = tables.call_fixed(*args)
         sec.add(tables.fixed_line(sx, *args), out, meta={'args': args},
-                tags=['negative-column' if '-45' in out else 'repaired'])
+                tags=['negative-column' if '-' in out else 'repaired'])
         eps = F(1, 10**9)
         band = {'table_w': F(400), 'tmin': F(200), 'tmax': F(1000), 'spacing': F(0), 'ml': F(0), 'mr': F(0),
                 'pl': F(0), 'pr': F(0), 'bl': F(0), 'br': F(0), 'cb': F(1000),
@@ -590,6 +713,13 @@ class C10(PropCheck):
                  'pl': F(0), 'pr': F(0), 'bl': F(0), 'br': F(0), 'cb': F(400),
                  'cols': [(F(15), F(15), F(0), False, True), (F(15), F(15), F(0), False, True)]}
         sec.add(tables.auto_line(sx, short), tables.call_auto(short), meta={'args': short}, tags=['spacing-short'])
+        # footer_line_off_by_one: the first fragment of FOOTER_LINE_HTML, painted by the real function
+        docs.quiet()
+        frags = tables.table_fragments(docs.render(FOOTER_LINE_HTML))
+        if frags:
+            dargs, dout, _ = tables.draw_borders_case(frags[0][2])
+            sec.add(sx.line('drawborders', *dargs), dout, meta={'html': FOOTER_LINE_HTML, 'info': None},
+                    tags=['footer-line-off-by-one' if ' 20 ' in dout else 'footer-line-repaired'])
 
     # -- table_and_columns_preferred_widths on mock tables (intrinsic widths of single boxes stubbed)
     def preferred_direct(self, run):
@@ -624,6 +754,31 @@ class C10(PropCheck):
         run.extra['float_rounding_preferred_direct'] = rounded
         run.extra['float_unstable_preferred_direct'] = unstable
 
+    # -- table_cell_min_max_content_width on mock cells (children's intrinsic widths stubbed)
+    def cellwidth_direct(self, run):
+        rng = run.rng
+        sec = run.section(
+            'cellwidth-direct', 'real table_cell_min_max_content_width on mock cells with 0..5 children (in flow, '
+            'floated, running, footnote, absolute, fixed; their min/max-content widths stubbed), width auto/px/%, '
+            'px min/max-width, px/%/auto margins and paddings, both border models (used border widths when '
+            'collapsing), outer and inner; inner widths exact (Fractions), outer widths are floats in the code '
+            '(`1 - percentages / 100`) and snapped within 1e-9; non-trivial = a child that is out of normal flow')
+        cases = []
+        for i in range(run.n(1500, 20000)):
+            spec = tables.g_cell_spec(rng, i % 5 == 4)
+            args, out = tables.call_cell_widths(spec)
+            kinds = {c[2] for c in spec['children']}
+            cases.append((sx.line('cellwidths', *args), out, spec, bool(kinds - {'static'}),
+                          ['adv' if i % 5 == 4 else 'valid', 'outer' if spec['outer'] else 'inner'] + sorted(kinds)))
+        models = lean.run_driver(DRIVER, [c[0] for c in cases])
+        rounded = 0
+        for (line, out, spec, nontrivial, tags), model in zip(cases, models):
+            # margin_width divides by the float `1 - percentages / 100`: outer widths are floats
+            snapped, k = tables.snap(out, model, whole=True) if spec['outer'] else (out, 0)
+            rounded += k
+            sec.add(line, snapped, meta={'cellspec': spec, 'impl_exact': out}, nontrivial=nontrivial, tags=tags)
+        run.extra['float_rounding_cellwidth_direct'] = rounded
+
     # -- collapse_table_borders on hand-built real box trees
     def borders_direct(self, run):
         rng = run.rng
@@ -650,7 +805,11 @@ class C10(PropCheck):
         sec = run.section(
             'fixed-direct', 'real fixed_table_layout on mock wrapper/table/col/cell boxes with Fractions, '
             '0..6 <col>s (auto/px/%), 0..6 first-row cells (colspan, width, padding, border, box-sizing), '
-            'plus an adversarial stream; non-trivial = at least one declared width')
+            'plus an adversarial stream; non-trivial = at least one declared width; exact, except that the '
+            'clamp `max(width, 0) / len(...)` of an infeasible first-row cell yields the float 0.0 (int / int) '
+            'and turns the later sums into floats: those results are snapped to the model within 1e-9 '
+            'relative and counted (float_rounding_fixed_direct); tag clamped = the model took that branch')
+        cases = []
         for i in range(run.n(4000, 60000)):
             adv = i % 5 == 4
             args = g_fixed(rng, adv)
@@ -659,7 +818,16 @@ class C10(PropCheck):
             tags = ['adv' if adv else 'valid', f'cols{len(args[3])}', f'cells{len(args[4])}']
             if out.startswith('err'):
                 tags.append(out)
-            sec.add(tables.fixed_line(sx, *args), out, meta={'args': args}, nontrivial=nontrivial, tags=tags)
+            cases.append((tables.fixed_line(sx, *args), out, args, nontrivial, tags))
+        models = lean.run_driver(DRIVER, [c[0] for c in cases])
+        clamped = lean.run_driver(DRIVER, [c[0].replace('fixed ', 'fixedclamped ', 1) for c in cases])
+        rounded = 0
+        for (line, out, args, nontrivial, tags), model, cl in zip(cases, models, clamped):
+            snapped, k = (tables.snap(out, model, whole=True) if cl == 'true' else (out, 0))
+            rounded += k
+            sec.add(line, snapped, meta={'args': args, 'impl_exact': out}, nontrivial=nontrivial,
+                    tags=tags + (['clamped'] if cl == 'true' else []))
+        run.extra['float_rounding_fixed_direct'] = rounded
 
         sec = run.section(
             'excess-direct', 'real distribute_excess_width on lists of Fractions, 0..6 columns, with and '
@@ -694,15 +862,22 @@ class C10(PropCheck):
         meta = d.get('meta') or {}
         section = d['section']
         if section == 'fixed-direct':
-            return judge_fixed(meta, d['impl'])
+            # the clamp branch computes in floats (see the section's rule)
+            return judge_fixed(meta, meta.get('impl_exact', d['impl']), F(1, 10**9))
         if section == 'excess-direct':
             return judge_excess(meta, d['impl'])
         if section == 'auto-direct':
             return judge_auto(meta, d['impl'])
         if section == 'witness-replay':
+            if 'args' in meta and isinstance(meta['args'], (tuple, list)):
+                return judge_fixed(meta, d['impl'], F(1, 10**9))
+            if meta.get('html'):
+                return doc_violation(meta['html'], meta.get('info'))
             return None
         if section == 'preferred-direct':
             return judge_preferred(meta, d['impl'])
+        if section == 'cellwidth-direct':
+            return tables.cell_widths_violation(meta['cellspec'], meta.get('impl_exact', d['impl']))
         if section == 'borders-direct':
             if d['impl'].startswith('err:'):
                 return None
@@ -722,7 +897,8 @@ class C10(PropCheck):
         found = []
         start = time.time()
         for gen, call, judge_fn, name in (
-                (g_fixed, lambda a: tables.call_fixed(*a), judge_fixed, 'fixed_table_layout'),
+                (g_fixed, lambda a: tables.call_fixed(*a),
+                 lambda m, o: judge_fixed(m, o, F(1, 10**9)), 'fixed_table_layout'),
                 (g_excess, lambda a: tables.call_excess(*a), judge_excess, 'distribute_excess_width'),
                 (g_auto, tables.call_auto, judge_auto, 'auto_table_layout')):
             for _ in range(3000):
@@ -756,7 +932,8 @@ class C10(PropCheck):
                 break
         i = 0
         while time.time() - start < (240 if run.thorough else 60) and len(found) < 3:
-            html, info = tables.g_doc(rng, 'paged' if i % 2 else 'wide')
+            html, info = (tables.g_split_doc(rng) if i % 3 == 2 else
+                          tables.g_doc(rng, 'paged' if i % 2 else 'wide'))
             i += 1
             run.search_stats['evaluations'] += 1
             what = doc_violation(html, info)
@@ -770,9 +947,12 @@ class C10(PropCheck):
         return False
 
     def finding_replays(self):
-        return {'fixed-negative-column': negative_column_replay,
-                'rtl-columns-reversed-on-relayout': rtl_reversed_replay,
-                'auto-spacing-ignores-spanned-only-column': spanned_only_replay}
+        # fixed-negative-column (5d962d2) and rtl-columns-reversed-on-relayout (d13f52d) are repaired:
+        # their replay functions are regression cases of the corpus-first section `regression-replay`
+        return {'auto-spacing-ignores-spanned-only-column': spanned_only_replay,
+                'collapsed-footer-line-off-by-one': footer_line_replay,
+                'collapsed-dropped-header-shifts-borders': dropped_header_replay,
+                'collapsed-rtl-clipped-grid': rtl_clipped_replay}
 
     def replay(self, data):
         inp = data.get('input', {})
@@ -787,15 +967,23 @@ class C10(PropCheck):
             # direct sections: call the real function again on the recorded arguments
             if d['section'] == 'fixed-direct':
                 d['impl'] = tables.call_fixed(*args)
+                d['meta'].pop('impl_exact', None)
             elif d['section'] == 'excess-direct':
                 d['impl'] = tables.call_excess(*args)
             elif d['section'] == 'auto-direct':
                 d['impl'] = tables.call_auto(args)
+            elif d['section'] == 'cellwidth-direct':
+                spec = d['meta']['cellspec']
+                spec['children'] = [tuple(c) for c in spec['children']]
+                for key in ('width', 'ml', 'mr', 'pl', 'pr'):
+                    spec[key] = tuple(spec[key])
+                d['impl'] = tables.call_cell_widths(spec)[1]
+                d['meta'].pop('impl_exact', None)
             return self.judge(d)
         fn = inp.get('function')
         if fn == 'fixed_table_layout':
             args = revive_value(inp['args'])
-            return judge_fixed({'args': args}, tables.call_fixed(*args))
+            return judge_fixed({'args': args}, tables.call_fixed(*args), F(1, 10**9))
         if fn == 'distribute_excess_width':
             args = revive_value(inp['args'])
             return judge_excess({'args': args}, tables.call_excess(*args))
@@ -836,7 +1024,7 @@ def revive_value(x):
 def revive(d):
     out = dict(d)
     meta = dict(d.get('meta') or {})
-    for key in ('args', 'spec'):
+    for key in ('args', 'spec', 'cellspec'):
         if key in meta:
             meta[key] = revive_value(meta[key])
     out['meta'] = meta
@@ -867,6 +1055,67 @@ def spanned_only_replay():
     return False
 
 
+FOOTER_LINE_HTML = (
+    '<style>@page{size:200px 50px;margin:0}body{margin:0;font:10px weasyprint;line-height:10px}'
+    'table{border-collapse:collapse}td{padding:0;border:0 solid black}</style>'
+    '<table><tfoot><tr><td>f</td></tr></tfoot><tbody><tr><td>a</td></tr><tr><td>b</td></tr><tr><td>c</td></tr>'
+    '<tr><td>d</td></tr><tr style="border-top:4px solid red"><td>e</td></tr></tbody></table>')
+
+
+def footer_line_replay():
+    """Known finding collapsed-footer-line-off-by-one: on the first page (rows a, b, c and the repeated
+    footer) draw_collapsed_borders paints the 4px red top border of row e (next page) between b and c,
+    whose cells have used border widths 0."""
+    docs.quiet()
+    document = docs.render(FOOTER_LINE_HTML)
+    frags = tables.table_fragments(document)
+    if len(frags) < 2:
+        return False
+    calls, err = tables.painted_segments(frags[0][2])
+    return err is None and any(w == 4 and side == 'top' and y1 == 20 for _, w, _, side, _, y1, _, _ in calls)
+
+
+DROPPED_HEADER_HTML = (
+    '<style>@page{size:200px 60px;margin:0}body{margin:0;font:10px weasyprint;line-height:10px}'
+    'table{border-collapse:collapse}td{padding:0;border:0 solid black}</style>'
+    '<table><thead><tr><td style="height:55px">h</td></tr></thead><tbody><tr><td>a</td></tr>'
+    '<tr style="border-top:4px solid red"><td>b</td></tr><tr><td>c</td></tr></tbody></table>')
+
+
+def dropped_header_replay():
+    """Known finding collapsed-dropped-header-shifts-borders: the header does not fit and is dropped, the
+    first fragment shows a, b, c; the red line above b is painted one row too low (under b)."""
+    docs.quiet()
+    document = docs.render(DROPPED_HEADER_HTML)
+    frags = tables.table_fragments(document)
+    if not frags or (frags[0][2].children and frags[0][2].children[0].is_header):
+        return False
+    t = frags[0][2]
+    rows = [r for g in t.children for r in g.children]
+    calls, err = tables.painted_segments(t)
+    under_b = rows[1].position_y + rows[1].height if len(rows) > 1 else None
+    return err is None and any(w == 4 and side == 'top' and y1 == under_b for _, w, _, side, _, y1, _, _ in calls)
+
+
+RTL_CLIPPED_HTML = (
+    '<style>@page{size:300px 100px;margin:0}body{margin:0;font:10px weasyprint;line-height:10px}'
+    'table{border-collapse:collapse;table-layout:fixed;width:100px;direction:rtl}'
+    'td{padding:0;border:1px solid black}</style>'
+    '<table><tr><td>a</td></tr><tr><td style="border:5px solid red">b</td><td>c</td></tr></table>')
+
+
+def rtl_clipped_replay():
+    """Known finding collapsed-rtl-clipped-grid: cell b (used border widths 2.5 = half of its 5px red
+    border) is painted with the 1px borders of the dropped cell c."""
+    docs.quiet()
+    document = docs.render(RTL_CLIPPED_HTML)
+    for _, _, t in tables.table_fragments(document):
+        what = tables.painted_violation(t, known=False)
+        if what and 'painted 1' in what:
+            return True
+    return False
+
+
 RTL_REVERSED_HTML = (
     '<style>@page{size:200px 100px;margin:0}body{margin:0;font:17px weasyprint;line-height:17px}td{padding:0}'
     '</style><p style="margin:0">x</p><table style="direction:rtl;border:8px solid black;border-spacing:0">' +
@@ -874,8 +1123,8 @@ RTL_REVERSED_HTML = (
 
 
 def rtl_reversed_replay():
-    """Known finding rtl-columns-reversed-on-relayout: on the first page the cell holding `bbbb`
-    (68px) is 17px wide and the cell holding `a` is 68px wide."""
+    """Former finding rtl-columns-reversed-on-relayout (repaired by d13f52d; regression case): on the
+    first page the cell holding `bbbb` (68px) was 17px wide and the cell holding `a` 68px wide."""
     docs.quiet()
     document = docs.render(RTL_REVERSED_HTML)
     for _, _, t in tables.table_fragments(document):
@@ -888,8 +1137,9 @@ def rtl_reversed_replay():
 
 
 def negative_column_replay():
-    """Known finding fixed-negative-column: a first-row cell narrower than the declared width of a
-    column it spans gives the other spanned column a negative width."""
+    """Former finding fixed-negative-column (repaired by 5d962d2; regression case): a first-row cell
+    narrower than the declared width of a column it spans gave the other spanned column a negative
+    width."""
     docs.quiet()
     document = docs.render(NEGATIVE_COLUMN_HTML)
     return any(w < 0 for _, _, t in tables.table_fragments(document) for w in t.column_widths)
@@ -911,6 +1161,7 @@ MANIFEST = {
             'group, never divides by zero, touches only the slice, never narrows (excess_sum/shape/ge/outside); auto '
             'layout — width clamped between min- and max-content, guesses pointwise ordered, no division by zero, '
             'columns fill the assignable width, every column >= min-content (auto_bounds/total/sum/ge_min_partial); '
+            'no column of a fixed layout is negative (fixed_nonneg, full strength since the repair 5d962d2); '
             'geometry — columns tile the content box ltr and rtl, a cell covers exactly the columns it spans '
             '(columns_partition, cell_extent); collapsed borders — the edge winner is the first maximum under '
             '(hidden, width, style rank) for any offer sequence, offers are made in CSS 2.1 17.6.2 order, used widths '
@@ -922,13 +1173,30 @@ MANIFEST = {
             '(Props/C10Pages); table_and_columns_preferred_widths mirrored given the intrinsic widths of single '
             'boxes, with the min-content guarantee for non-spanning and spanning cells end to end through '
             'auto_table_layout (Props/C10Pref); the row height algorithm (baseline alignment, rowspans, '
-            'vertical-align stretching) with row_height (Props/C10Heights).',
+            'vertical-align stretching) with row_height (Props/C10Heights). '
+            'Round 3: rows cut by a page break — the per-cell skip stack / resume dict bookkeeping of group_layout '
+            '(keyed by the index of the cell in the row) with split_roundtrip, every block_container_layout call made '
+            'for a cell compared, and conservation of all words of all body cells over the fragments (Props/C10Split); '
+            'table_cell_min_max_content_width given the children\'s intrinsic widths, floats and running elements '
+            'counted, absolutely positioned boxes not, with cell_min_covers and auto_column_covers_float end to end '
+            'through the preferred widths and auto layout (Props/C10CellWidth); draw_collapsed_borders — which grid '
+            'line each line of a fragment shows (row_number), the painted segments and their order — with '
+            'painted_unsplit, painted_header_lines, painted_body_rows, painted_footer, painted_in_score_order, '
+            'sort_perm, painted_from_grid (Props/C10Draw), compared with the lines the real function paints for '
+            'every collapsed fragment; the split bookkeeping of table_layout (skipped_rows, border_top_width, '
+            'skip_cell_border flags, position of continued cells under a repeated header) with '
+            'skipped_is_flat_index, resumed_row_painted, reserved_top_is_painted_top, split_cell_below_header '
+            '(Props/C10SplitBorders); fixed_nonneg at full strength after the repair 5d962d2.',
     'note': 'Trusted: Lean kernel; the AST/graph translator of the border style list; the harness (mock boxes, call '
             'recorders around the real functions during renders, float results snapped to the rational model within '
             '1e-9 relative and counted). Not modelled: table_and_columns_preferred_widths (its result is an input of the '
             'auto model; only its spacing count and the min-content clause are tied at document level), cell content '
             'layout and row heights (inputs of the row model), the pagination decisions themselves (checked, not '
             'predicted). Partial: auto_ge_min under the hypothesis that the 1e-9 tolerance decides nothing '
-            '(Witness.C10.auto_band_below_min); fixed_nonneg_partial (finding fixed-negative-column); document-level '
+            '(Witness.C10.auto_band_below_min); painted_body_lines_partial (finding '
+            'collapsed-footer-line-off-by-one: Witness.C10.footer_line_off_by_one); painted_unsplit needs the '
+            'fragment to show all rows (finding collapsed-dropped-header-shifts-borders); an rtl fragment whose '
+            'grid was clipped by the fixed layout is painted from the wrong grid columns (finding '
+            'collapsed-rtl-clipped-grid); document-level '
             'width sum fails for columns without originating cell (finding auto-spacing-ignores-spanned-only-column).',
 }
